@@ -187,7 +187,7 @@ func c19Infer(c *vk.Ctx, id, ts string, soundness bool) (accepted bool) {
 
 // C19 — type inference is total and sound; type compatibility is symmetric.
 func C19(c *vk.Ctx) {
-	c.Rule("type strings: (a) every type the registry's base columns report, legal and illegal parameterisations (time zones, DateTime64 precisions 0..10, Decimal precisions at every width boundary, FixedString sizes incl. 0 / negative / non-numeric, enum definitions with quoted commas and parentheses, interval kinds, types the library does not know), each under Array / Nullable / LowCardinality / Map / Tuple wrappers to depth 1, a smaller base set to depth 2 (thorough 3); (b) ALL token strings of length <= n (quick 5, thorough 6) over a 25-token alphabet of type names, punctuation, parameters and junk; (c) nesting depth 10000; (d) every single edit (deletion, insertion or replacement by one of ()',= 0a- at every position, every truncation) of the set-(a) types with at most 3 parentheses; (e) ALL character strings of length <= m (quick 5, thorough 6) over the alphabet {' a = 1 , space - ( )} as the parameter list of Enum8 / Enum16 / DateTime / DateTime64 / Decimal / Decimal64 / FixedString / Map / Tuple / Nested, bare and under Nullable / Array. Oracle: Infer never panics; when it accepts, the column's type does not conflict with the request and a block of that type written by the reference model decodes to the written values. Conflicts is checked reflexive and symmetric on all ordered pairs of set (a) and against the documented equivalences. distinct_nontrivial = distinct type strings + ordered pairs.")
+	c.Rule("type strings: (a) every type the registry's base columns report, legal and illegal parameterisations (time zones, DateTime64 precisions 0..10, Decimal precisions at every width boundary, FixedString sizes incl. 0 / negative / non-numeric, enum definitions with quoted commas and parentheses, interval kinds, types the library does not know), each under Array / Nullable / LowCardinality / Map / Tuple wrappers to depth 1, a smaller base set to depth 2 (thorough 3); (b) ALL token strings of length <= n (quick 5, thorough 6) over a 25-token alphabet of type names, punctuation, parameters and junk; (c) nesting depth 10000; (d) every single edit (deletion, insertion or replacement by one of ()',= 0a- at every position, every truncation) of the set-(a) types with at most 3 parentheses; (e) ALL character strings of length <= m (quick 5, thorough 6) over the alphabet {' a = 1 , space - ( )} as the parameter list of Enum8 / Enum16 / DateTime / DateTime64 / Decimal / Decimal64 / FixedString / Map / Tuple / Nested, bare and under Nullable / Array. Oracle: Infer never panics; when it accepts, the column's type does not conflict with the request and a block of that type written by the reference model decodes to the written values. Conflicts is checked reflexive and symmetric on all ordered pairs of set (a) and against the documented equivalences, generated from families of spellings with one wire layout (enum / bare enum / underlying integer; DecimalN / Decimal(P, S) at both ends of each precision range; timestamps with and without zone), bare and under Array / Nullable / LowCardinality, with the pairs across families of one group required to conflict. distinct_nontrivial = distinct type strings + ordered pairs.")
 	quick := c.Quick()
 	types := c19Types(quick)
 	accepted := 0
@@ -345,6 +345,35 @@ func C19(c *vk.Ctx) {
 			{"Array(Enum8('a' = 1))", "Array(Int8)", false}, {"Nullable(DateTime)", "Nullable(DateTime('UTC'))", false}, {"LowCardinality(Enum8('a' = 1))", "LowCardinality(Int8)", false},
 			{"Array(String)", "Array(UInt8)", true}, {"Nullable(String)", "Nullable(UInt8)", true}, {"LowCardinality(String)", "LowCardinality(FixedString(3))", true},
 			{"Enum8('a' = 1)", "Int16", true}, {"Enum16('a' = 1)", "Int8", true}, {"FixedString(2)", "FixedString(3)", true}, {"Decimal(9, 2)", "Decimal64", true}, {"Decimal(10, 2)", "Decimal32", true},
+		}
+		// generated: families of spellings with one wire layout (every ordered pair inside a
+		// family is compatible, bare and under the element-wise wrappers; pairs across the
+		// families of one group conflict)
+		groups := [][][]string{
+			{{"Int8", "Enum8", "Enum8('a' = 1)", "Enum8('b' = 2, 'c' = 3)"}, {"Int16", "Enum16", "Enum16('a' = 1)", "Enum16('b' = -300, 'c' = 300)"}},
+			{{"Decimal32", "Decimal(1, 0)", "Decimal(9, 2)", "Decimal(9,2)"}, {"Decimal64", "Decimal(10, 2)", "Decimal(18, 4)"},
+				{"Decimal128", "Decimal(19, 4)", "Decimal(38, 10)"}, {"Decimal256", "Decimal(39, 10)", "Decimal(76, 20)"}},
+			{{"DateTime", "DateTime('UTC')", "DateTime('Europe/Berlin')"}, {"DateTime64(3)", "DateTime64(3, 'UTC')", "DateTime64(9)"}},
+		}
+		for _, g := range groups {
+			for fi, fam := range g {
+				for _, wr := range []string{"%s", "Array(%s)", "Nullable(%s)", "LowCardinality(%s)", "Array(Nullable(%s))"} {
+					for _, a := range fam {
+						for _, b := range fam {
+							if a != b {
+								pairs = append(pairs, pr{fmt.Sprintf(wr, a), fmt.Sprintf(wr, b), false})
+							}
+						}
+						for fj, other := range g {
+							if fj > fi {
+								for _, b := range other {
+									pairs = append(pairs, pr{fmt.Sprintf(wr, a), fmt.Sprintf(wr, b), true})
+								}
+							}
+						}
+					}
+				}
+			}
 		}
 		for _, e := range regtab.Generated {
 			if e.Depth != 0 {
